@@ -27,7 +27,7 @@ def confirm_sem(ctx, cfg, lines, prop):
     path = os.path.join(ctx.work, "cand%d.json" % len(os.listdir(ctx.work)))
     json.dump(rp, open(path, "w"))
     # (a violation that depends on the iteration order of a map may need more than one attempt to show again)
-    for attempt in range(4):
+    for attempt in range(6):
         out = ctx.vh_json(["rerun", path])
         fresh = out["lines"]
         tpath = path + ".ndjson"
@@ -115,7 +115,7 @@ def trace_batches(ctx, corpus, cfg, n, batches, prop=None, also=()):
                 confirmed_kinds.add(key)
                 ctx.add_violation("%s: %s | script: %s" % (v["prop"], v["what"], lines[0]["text"].replace("\n", " ")[:300]), rp)
             else:
-                raise Infra("candidate violation did not reproduce: %s" % v)
+                ctx.__dict__.setdefault("unreproduced", []).append(v)
 
 
 def allot_apalache(ctx, vectors):
@@ -191,7 +191,7 @@ def split_batches(ctx, corpus, mode, n, batches):
                 seen.add(v["what"])
                 ctx.add_violation("%s: %s (split after statement %s) | script: %s" % (prop, v["what"], v.get("k"), cases[v["id"]][0]["text"].replace("\n", " ")[:300]), rp)
             else:
-                raise Infra("candidate violation did not reproduce: %s" % v)
+                ctx.__dict__.setdefault("unreproduced", []).append(v)
 
 
 def confirm_split(ctx, mode, prop, case):
